@@ -220,6 +220,9 @@ def run_property(pid, tier, seed):
     t0 = time.time()
     cfg = PROPS[pid]
     os.makedirs(REPLAY, exist_ok=True)
+    stale = os.path.join(REPLAY, "%s-%d.json" % (pid, seed))
+    if os.path.exists(stale):
+        os.remove(stale)
     report = {"lean": {}, "streams": {}}
     broken = []          # descriptions of broken obligations / correspondence
     spec_fails = []      # concrete failing inputs (implementation vs property)
